@@ -41,13 +41,23 @@ def run(prop, tier, seed, rule, text):
                 else:
                     others += len(v)
             samples += (d.get("samples") or [])[:1]
+        dirfit = 0
+        if prop == "C01":
+            # "a directory reply carries only the whole entries that fit in the requested byte count":
+            # the count / msize sweep of Version.tla's DirFitCases (shared with C13)
+            from . import versioncheck
+            env, _ = versioncheck.vectors(s, [f for f in vlib.fixed_ids() if f in versioncheck.ALL_DEV])
+            t = versioncheck.replay(s, "dirfit", env["VEC_DIRFIT"])
+            dirfit = t["cases"]
+            findings += [f[5:] for f in t["findings"] if f.startswith("C01: ")]
+            frames += t["cases"]
         for f in findings[:5]:
             p = vlib.save_replay(prop, {"finding": f}, "transp")
             verdict.violation(p, f)
     n = frames if prop == "C01" else cases
     cov = {"states": cases, "transitions": frames, "traces_validated_against_impl": max(0, n - len(findings)),
            "samples": samples[:2] or [{"note": "none"}], "evaluations": n, "distinct_nontrivial": n, "rule": rule,
-           "scenarios": cases, "frames_checked_against_layout": frames, "findings_owned_by_the_other_property": others,
+           "scenarios": cases, "frames_checked_against_layout": frames, "findings_owned_by_the_other_property": others, "readdir_count_sweep_cases": dirfit,
            "explanation": text, "exhaustive": True,
            "checker_cmd": "tlc MC_ClientFile.tla (Wire.tla + ClientFile.tla ASSUMEs, scenario dump) + harness/cmd/transp"}
     vlib.write_evidence(prop, tier, seed, "model_checking" if prop == "C03" else "exploration", cov, [
